@@ -50,7 +50,9 @@ func (l *Line) Insert(pos int, chars ...rune) {
 
 	switch {
 	case l.Len() == 0:
-		*l = chars
+		// Never keep the caller's slice (often a kill
+		// buffer or another line): edits would write into it.
+		*l = append(Line{}, chars...)
 	case pos < l.Len():
 		forward := string((*l)[pos:])
 		cut := string(append((*l)[:pos], chars...))
